@@ -40,6 +40,7 @@ EXHAUSTIVE = {'quick': False, 'thorough': False}
 _Q = {
     'mon:ids': 30000, 'mon:sizes': 60000, 'mon:examples': 300000, 'mon:preorder': 6000, 'mon:order': 20000,
     'mon:shuffle': 10000, 'mon:getclients': 6000, 'mon:keyerror': 100000, 'mon:parent': 15000, 'mon:differential': 14000,
+    'mon:contract': 500,
     'obs:mem': 1000, 'obs:sql': 1200, 'obs:submem': 1000, 'obs:subsql': 1200, 'obs:sqlr': 1200,
     'reobs:mem': 700, 'reobs:sql': 800, 'reobs:submem': 700, 'reobs:subsql': 800,
     'hit:sqlite-reverse-unordered-order': 1200, 'hit:sqlite-reverse-unordered-shuffled': 1000,
@@ -48,8 +49,8 @@ _Q = {
     'subset-of-slice': 30, 'nul-family-ids': 60, 'prefix-family-ids': 40, 'rowchanging-pre': 10,
     'out-of-view-probe-nul-variant': 600,
 }
-# thorough runs 20x the quick number of histories
-MIN_HITS = {'quick': _Q, 'thorough': {k: 20 * v for k, v in _Q.items()}}
+# thorough runs 15x the quick number of histories
+MIN_HITS = {'quick': _Q, 'thorough': {k: 15 * v for k, v in _Q.items()}}
 TECHNIQUE = ('runtime monitoring: dict reference model + 5-way implementation differential (in-memory, SQLite via the real '
              'builder, both subset-wrapped, SQLite under reverse_unordered_selects) over random view-operation histories with '
              'value-tracing preprocessors and re-observation of every ancestor view')
@@ -687,13 +688,33 @@ def run_case(ctx, fedjax, mods, rng, tmpdir, case_no):
         pass
 
 
+def install_contract(ctx, fdm):
+  """icontract postcondition on intersect_slice_ranges (reached through the module attribute by SQLite slice()).
+
+  The condition records the verdict itself and lets the call proceed, so the differential still sees the consequences.
+  """
+  import icontract
+
+  def intersect_post(current_start, current_stop, new_start, new_stop, result):
+    starts = [x for x in (current_start, new_start) if x is not None]
+    stops = [x for x in (current_stop, new_stop) if x is not None]
+    want = (max(starts) if starts else None, min(stops) if stops else None)
+    ctx.check(tuple(result) == want, 'contract/intersect-slice-ranges',
+              'intersect_slice_ranges is not the intersection of the two ranges',
+              {'current': (current_start, current_stop), 'new': (new_start, new_stop), 'result': result, 'expected': want})
+    return True
+
+  fdm.intersect_slice_ranges = icontract.ensure(intersect_post)(fdm.intersect_slice_ranges)
+
+
 def run(ctx):
   import fedjax
   from fedjax.core import federated_data as fdm
   from fedjax.core import in_memory_federated_data as im
   from fedjax.core import sqlite_federated_data as sq
   model_selfcheck()
-  ncases = 400 if ctx.quick else 8000
+  install_contract(ctx, fdm)
+  ncases = 400 if ctx.quick else 6000
   tmpdir = tempfile.mkdtemp(prefix='vmon-c08-', dir=os.environ.get('VMON_WORK') or None)
   try:
     for cid, rng in ctx.cases('hist', ncases):
